@@ -397,6 +397,27 @@ pub fn plan(property: &str, tier: Tier) -> Option<Plan>
                 c.script = Arc::new(move |i: &DynInfo| { let mut v = inner(i); v.push(Op::Nop); v });
                 items.push(item(c, "mixed3+nop", &format!("N={n}")));
             }
+            // several polled (despawn) reactions for one ref-counted reactor detected while that reactor is executing:
+            // all of them are postponed, each must keep its target alive until it has been replayed
+            let ns: &[u32] = if q { &[5, 6] } else { &[5, 6, 7] };
+            for &n in ns
+            {
+                let mut c = Config::base(&format!("C09/polled-postponed/N{n}"));
+                c.actors = vec![Variant::Plain, Variant::Plain];
+                c.n_ents = 3;
+                c.setup = vec![
+                    Op::RegisterNew(Variant::Plain, Bundle::three(Trig::Despawn(0), Trig::Despawn(1), Trig::Despawn(2)), Mode::Cleanup),
+                    Op::Register(1, Bundle::one(Trig::Despawn(1)), Mode::Persistent),
+                ];
+                c.top = Arc::new(|_i: &DynInfo| vec![Op::Despawn(0), Op::Poll, Op::Run(2)]);
+                c.max_top = 2;
+                c.script = Arc::new(|_i: &DynInfo| vec![Op::Despawn(0), Op::Despawn(1), Op::Despawn(2), Op::Run(0), Op::Run(2), Op::Nop]);
+                c.budget = n;
+                c.max_per_run = 3;
+                c.max_runs = 200;
+                c.final_gc = true;
+                items.push(item(c, "polled-postponed", &format!("N={n}")));
+            }
             reports = vec!["C09"];
             rule = "runner-core programs plus plain commands, and kind-rich programs (insertion / mutation / removal \
                 reactions, events); non-trivial = at least one run; distinct = distinct canonical trace".into();
@@ -853,6 +874,37 @@ pub fn plan(property: &str, tier: Tier) -> Option<Plan>
                     items.push(item(c, "erring", &format!("N={n}")));
                 }
             }
+            if !is3
+            {
+                // reactors queuing through `DeferredWorld::commands()`: their commands sit on the world's own queue and
+                // run at the first flush after the body - the release of the event data by the last reader, or the
+                // runner's next poll - where nothing may still read the event. Only reader visibility is judged here.
+                let ns: &[u32] = if q { &[4] } else { &[4, 5, 6] };
+                for &n in ns
+                {
+                    let mut c = Config::base(&format!("C04/deferred/N{n}"));
+                    c.actors = vec![Variant::Deferred, Variant::Deferred, Variant::Plain];
+                    c.n_ents = 1;
+                    c.setup = vec![
+                        Op::Register(0, Bundle::two(Trig::Broadcast(Ev::A), Trig::EntityEvent(Ev::A, 0)), Mode::Persistent),
+                        Op::Register(1, Bundle::two(Trig::Broadcast(Ev::A), Trig::EntityEvent(Ev::B, 0)), Mode::Persistent),
+                        Op::Register(1, Bundle::one(Trig::ResMut), Mode::Persistent),
+                    ];
+                    let alpha: AlphabetFn = Arc::new(|_i: &DynInfo| {
+                        vec![Op::Broadcast(Ev::A), Op::EntityEvent(Ev::A, 0), Op::EntityEvent(Ev::B, 0), Op::ResMutate(How::GetMut),
+                            Op::SysEvent(0), Op::SysEvent(1), Op::Run(2)]
+                    });
+                    c.top = alpha.clone();
+                    c.script = alpha;
+                    c.max_top = 2;
+                    c.budget = n;
+                    c.max_per_run = 2;
+                    c.max_runs = 400;
+                    c.sym_actors = vec![];
+                    c.only_props = vec!["C03", "C04", "C05"];
+                    items.push(item(c, "deferred", &format!("N={n}")));
+                }
+            }
             reports = vec![if is3 { "C03" } else { "C04" }];
             rule = "kind-rich programs: two actors registered for every trigger kind type-wide and entity-scoped (several \
                 metadata entries per system pending at once); readers of every kind sampled at the start of every \
@@ -1177,7 +1229,16 @@ pub fn plan(property: &str, tier: Tier) -> Option<Plan>
                         Op::RegisterNew(Variant::Plain, Bundle::two(t0, t1), Mode::Revokable),
                         Op::Register(1, Bundle::two(t0, t1), Mode::Persistent),
                     ];
-                    c.fixed_top = vec![fires[0]];
+                    if !is1
+                    {
+                        // a reactor holding two separately revokable registrations: it survives the revocation of
+                        // one of them, so anything still delivered for the revoked one is observable
+                        c.setup.push(Op::Register(2, Bundle::one(t0), Mode::Revokable));
+                        c.setup.push(Op::Register(2, Bundle::one(t1), Mode::Revokable));
+                    }
+                    // a second top-level trigger after the tree: whatever the tree left behind (scratch buffers,
+                    // stale table entries) meets a fresh trigger application
+                    c.fixed_top = vec![fires[0], fires[1]];
                     let fires2 = fires.clone();
                     let trigs2 = trigs.clone();
                     c.script = Arc::new(move |i: &DynInfo| {
@@ -1185,6 +1246,9 @@ pub fn plan(property: &str, tier: Tier) -> Option<Plan>
                         for k in i.ready_tokens() { v.push(Op::Revoke(k)); }
                         v.push(fires2[0]);
                         v.push(fires2[2]);
+                        // the trigger entity despawned in the same batch as an operation on it (e.g. an insert that
+                        // fails when applied)
+                        v.push(Op::Despawn(0));
                         v.push(Op::Register(2, Bundle::one(trigs2[0]), Mode::Persistent));
                         if i.n_actors < 5 { v.push(Op::RegisterNew(Variant::Plain, Bundle::one(trigs2[0]), Mode::Revokable)); }
                         v.push(Op::DespawnSys(1));
@@ -1323,12 +1387,18 @@ pub fn plan(property: &str, tier: Tier) -> Option<Plan>
                 c.actors = vec![Variant::Plain];
                 c.n_ents = 1;
                 c.setup = vec![Op::Insert(Comp::A, 0, 0)];
-                let bundles = vec![
+                let mut bundles = vec![
                     Bundle::one(Trig::Insertion(Comp::A)),
                     Bundle::one(Trig::Mutation(Comp::A)),
                     Bundle::one(Trig::Removal(Comp::A)),
                     Bundle::two(Trig::EntityMutation(Comp::A, 0), Trig::Mutation(Comp::B)),
                 ];
+                if !is7
+                {
+                    // entity-scoped removal: its revoke token must name the same table entry its registration made
+                    bundles.push(Bundle::one(Trig::EntityRemoval(Comp::A, 0)));
+                    bundles.push(Bundle::two(Trig::EntityRemoval(Comp::A, 0), Trig::Mutation(Comp::A)));
+                }
                 c.top = Arc::new(move |i: &DynInfo| {
                     let mut v = Vec::new();
                     if i.n_actors < 4
@@ -1345,6 +1415,7 @@ pub fn plan(property: &str, tier: Tier) -> Option<Plan>
                     for k in i.ready_tokens() { v.push(Op::Revoke(k)); }
                     v.push(Op::Insert(Comp::A, 0, 1));
                     v.push(Op::Mutate(Comp::A, 0, How::GetMut));
+                    if !is7 { v.push(Op::RemoveComp(Comp::A, 0)); v.push(Op::Poll); }
                     v.push(Op::Gc);
                     v
                 });
